@@ -241,7 +241,7 @@ class PoolAdapter(Adapter):
                 o[k] = o[i][slice(None if a == NONE_IX else a, None if b == NONE_IX else b)]
             elif action == "GetBin":
                 i, ix, lo, hi, num = args
-                obs["ret"] = o[i][int(ix)]
+                obs["ret"] = o[i][np.int64(ix) if self.spelling % 2 else int(ix)]      # a numpy integer is an integer index too
             elif action == "Take":
                 i, idx, how, k = args
                 n = o[i].bin_count
